@@ -239,7 +239,7 @@ def run_w2(sim, params):
     variant = sim.choose("variant", 6)
     choice = sim.choose("cmd", 7)
     payload = sim.bytes("payload", 3 + sim.choose("paylen", 14), tag=3)
-    timeout = sim.pick("timeout", [0.1, 0.005, 1.0, 2.5])
+    timeout = sim.pick("timeout", [0.1, 0.005, 1.0, 2.5, 70.0])
     family = world.DRIVERS[drv]["family"]
     desc = {"driver": drv, "kind": kind, "variant": variant, "timeout": timeout}
 
